@@ -67,30 +67,42 @@ def walk(ctx, scope):
     env = dict(os.environ)
     env.update(ASAN_ENV)
     env.pop("NEATVI_VERIF_TRACE", None)
-    with open(inp) as f:
-        p = subprocess.run(["timeout", "3000", walker], stdin=f, capture_output=True, text=True,
-                           env=env, cwd=ctx.scratch)
-    done = None
-    bad = []
-    for ln in p.stdout.splitlines():
-        if ln.startswith("{"):
-            o = json.loads(ln)
-            if o.get("done"):
-                done = o
-            elif o.get("mismatch"):
-                bad.append(o)
-    if done is None:
-        # the walker died: crash or sanitizer report inside the line buffer
-        ctx.violation("lbuf walker aborted (rc=%d): %s" % (p.returncode, p.stderr[-1500:]),
-                      {"kind": "lbufwalk-abort", "scope": scope, "stderr": p.stderr[-4000:]},
-                      {"kind": "walk-abort"})
-        return dict(states=nstates, transitions=0, mismatches=0, samples=samples, dump=r)
-    if done["states"] != nstates:
-        raise Infra("walker consumed %d of %d states" % (done["states"], nstates))
-    for b in bad:
-        ctx.violation("line buffer disagrees with Lbuf.tla after calls %s then %s: expected %s got %s"
-                      % (b["path"], b["op"], b["exp"], b["got"]),
-                      {"kind": "lbufwalk", "scope": scope, **b}, {"kind": "walk", "op": b["op"][0]})
+    total = 0
+    nbad = 0
+    # the same graph under three instantiations of "line identity -> text" (see lbufwalk.c)
+    for rendering in (0, 1, 2):
+        with open(inp) as f:
+            p = subprocess.run(["timeout", "3000", walker, str(rendering)], stdin=f, capture_output=True, text=True,
+                               env=env, cwd=ctx.scratch)
+        done = None
+        bad = []
+        for ln in p.stdout.splitlines():
+            if ln.startswith("{"):
+                o = json.loads(ln)
+                if o.get("done"):
+                    done = o
+                elif o.get("mismatch"):
+                    bad.append(o)
+        if done is None:
+            # the walker died: crash or sanitizer report inside the line buffer
+            ctx.violation("lbuf walker aborted (rc=%d, rendering %d): %s" % (p.returncode, rendering, p.stderr[-1500:]),
+                          {"kind": "lbufwalk-abort", "scope": scope, "rendering": rendering, "stderr": p.stderr[-4000:]},
+                          {"kind": "walk-abort"})
+            continue
+        if done["states"] != nstates:
+            raise Infra("walker consumed %d of %d states" % (done["states"], nstates))
+        total += done["transitions"]
+        nbad += done["mismatch"]
+        for b in bad:
+            ctx.violation("line buffer disagrees with Lbuf.tla after calls %s then %s (rendering %d): expected %s got %s"
+                          % (b["path"], b["op"], rendering, b["exp"], b["got"]),
+                          {"kind": "lbufwalk", "scope": scope, "rendering": rendering, **b},
+                          {"kind": "walk", "op": b["op"][0], "rendering": rendering})
+    return dict(states=nstates, transitions=total, mismatches=nbad, samples=samples, dump=r)
+
+
+def _unused():
+    done = {}
     return dict(states=nstates, transitions=done["transitions"], mismatches=done["mismatch"],
                 samples=samples, dump=r)
 
